@@ -2,11 +2,13 @@
 # Builds the driver from files on disk only (offline) and warms the Go build cache for the
 # simulated tree. Run once in /verif after a fresh restore.
 set -e
-cd /verif
+here=$(cd "$(dirname "$0")" && pwd)
+cd "$here"
+[ "$here" != /verif ] && export VERIF_DIR="$here"
 export GOFLAGS=-mod=mod GOPROXY=off GOSUMDB=off GOTOOLCHAIN=local
 mkdir -p bin evidence replays
 go1.26.8 build -o bin/simcheck ./cmd/simcheck
-# warm the cache: one build of the worker for the normal and the race configuration
+# warm the cache: one build of the worker
 ./bin/simcheck scenarios >/dev/null
 if [ "$1" = "full" ]; then
 	./bin/simcheck selftest determinism 20
